@@ -37,14 +37,14 @@
 int ex_main(int argc, char** argv);
 void vt_presets(const char* presets);       /* provided per program: sets mode variables that have no usable option */
 
-#define MAXEV 96
+#define MAXEV 400
 typedef struct { char kind; int len; uint8_t data[2048]; } Event;
 static Event g_ev[MAXEV]; static int g_nev, g_pos;
 static int g_timer_armed, g_timer_periodic, g_expiry_budget, g_timer_fd = -1, g_can_fd = -1, g_net_fd = -1;
 static int g_next_fd = 100;
 
 /* effects log in shared memory (survives a crashing child) */
-#define LOGSZ (1 << 16)
+#define LOGSZ (1 << 19)
 static char* g_log; static volatile uint32_t* g_loglen;
 static void elog(const char* fmt, ...) __attribute__((format(printf, 1, 2)));
 #include <stdarg.h>
@@ -185,7 +185,7 @@ int main(int argc, char** argv)
     for (int i = 1; i < argc; i++) if (!strcmp(argv[i], "--limit")) limit = atof(argv[++i]);
     g_log = mmap(NULL, LOGSZ + 4096, PROT_READ | PROT_WRITE, MAP_SHARED | MAP_ANONYMOUS, -1, 0);
     g_loglen = (volatile uint32_t*)(g_log + LOGSZ);
-    static char line[200000];
+    static char line[2000000];
     while (fgets(line, sizeof line, stdin)) {
         char* nl = strchr(line, '\n'); if (nl) *nl = 0;
         char* id = line;
@@ -202,7 +202,7 @@ int main(int argc, char** argv)
             av[ac++] = "example";
             for (char* t = strtok(args, " "); t && ac < 30; t = strtok(NULL, " ")) av[ac++] = t;
             av[ac] = NULL;
-            static char evcopy[200000];
+            static char evcopy[2000000];
             strcpy(evcopy, events);
             parse_events(evcopy);
             vt_presets(presets);
